@@ -212,7 +212,7 @@ func TestVerifC01(t *testing.T) {
 		run(c)
 	}
 	g := &model.Gen{R: r.Rand("c01", "random"), ValidOnly: true}
-	n := r.Pick(8000, 200000)
+	n := r.Pick(8000, 600000)
 	for i := 0; i < n; i++ {
 		run(model.Case{ID: fmt.Sprintf("rand/%d", i), Doc: g.Doc()})
 	}
